@@ -722,8 +722,11 @@ def run_interop(ctx, corr, cases, infos):
                     except Exception as ex:
                         ctx.notes.append(f'shrink raised {ex}')
                     os.makedirs(os.path.join(d, 'shrink'), exist_ok=True)
+                    # shrinking must not walk into a known-finding region (the original is outside all of them)
+                    if small is not s and parse_assign(drive(ctx, [('assign', small)])[0])['regions']:
+                        small = s
                 v = {'what': f'caller compiled by {combo[0]}, callee by {combo[1]}: {r[0]}: {r[1]}',
-                     'input': small.short(), 'lean': small.lean(), 'original': s.short(), 'combo': list(combo),
+                     'input': small.short(), 'lean': small.lean(), 'original': s.short(), 'original_lean': s.lean(), 'combo': list(combo),
                      'expected': 'every argument leaf and the return value arrive intact', 'got': r[1], 'mode': 'interop'}
                 if region:
                     v['known_id'] = region[0]
